@@ -133,6 +133,15 @@ func genDagCase(c *simrt.Choices, maxN int) *dagCase {
 	// cap the number of downstream paths (graph.GetDescendants is path-exponential, C19;
 	// the simulation must not trip over it)
 	cs.Edges = capPaths(n, cs.Edges, 4000)
+	// a dependency may be declared twice (two spellings of one label, or directly and through
+	// an alias): the graph then carries duplicate edges
+	if len(cs.Edges) > 0 && c.Choose(4, "dup-edges") == 0 {
+		k := 1 + c.Choose(3, "ndup")
+		for j := 0; j < k; j++ {
+			cs.Edges = append(cs.Edges, cs.Edges[c.Choose(len(cs.Edges), "dup-edge")])
+		}
+		cs.Edges = capPaths(n, cs.Edges, 4000)
+	}
 	cs.NEdges = len(cs.Edges)
 
 	// selection: all, or the dependency closure of a random subset
